@@ -9,7 +9,15 @@
 (*   d.resp supports_response in {"none","optional","only"},  d.sf  how the aliases are     *)
 (*          written ("stack": one @service per name, "args": one @service with all names).  *)
 (* Generations are referenced from global names (bind), a list L and a dict slot D of their *)
-(* global context (cont).  Contexts: c1 (script file), c2 (app), c3 (Jupyter session).      *)
+(* global context (cont).  Contexts: c1 (script file), c2 (app), c3 (Jupyter session),      *)
+(* c4 (a module, modules/mx.py: NOT loaded until some context imports it - at the top of a   *)
+(* file being loaded, by a top-level statement / Jupyter cell of a started context, or       *)
+(* inside a running function; it then stays loaded, whatever happens to its importers, until *)
+(* its file is removed or the integration is unloaded).                                     *)
+(* A file / app / module whose top level RAISES after some of its definitions were evaluated *)
+(* is not loaded: nothing it defined is active afterwards (fail = TRUE).                     *)
+(* Service names are spelled as written ("S3" has an upper-case letter; HA folds the name,   *)
+(* the script does not): one name, one count, one owner, whatever the spelling.             *)
 (*                                                                                          *)
 (* The resource tables are explicit: service registry (cnt = reference count, own = owning  *)
 (* context, hd = generation whose callback HA holds), state subscriptions per *entity*      *)
@@ -34,6 +42,16 @@
 (*        task ran its first step (deleted / redefined / context closed right after the     *)
 (*        start, no quiescence in between): TrigInfo.stop finds nothing to unsubscribe, the *)
 (*        task then subscribes and is cancelled - the queues and the bus listener stay      *)
+(*  "session-import-module-not-started"  a module imported by a Jupyter CELL is loaded while *)
+(*        the session's auto-start is switched off for the cell: its functions are delayed  *)
+(*        and nobody starts them (until an unrelated pyscript.reload starts every context)   *)
+(*  "service-bookkeeping-keyed-by-spelling"  counts and owners are kept per SPELLING of a     *)
+(*        service name while HA folds names: two live declarations that spell one name        *)
+(*        differently ("pyscript.s1" / "pyscript.S1") do not share a count - removing one     *)
+(*        unregisters the service the other still declares, and a second context takes the    *)
+(*        name over.  (d.alt = the declaration spells its names the other way; the intended   *)
+(*        rule does not look at it; what the code does from such a collision on is not        *)
+(*        modelled: the acceptor judges the recording up to that step, see LifecycleTrace)    *)
 (*                                                                                          *)
 (* Rush: a structural action may be followed by the next one before quiescence (quiet =     *)
 (* FALSE; hot = generations whose start is still in progress).  INTENDED: the result is the *)
@@ -53,16 +71,18 @@ CONSTANTS MaxGen, MaxSteps, Ctx, Name, FlagSets, SubSet, StartedSet, Eager, Decl
           Rush         \* TRUE: the next action may be issued before the previous one has become quiescent
 
 Session == "c3"
-Svc == {"s1", "s2"}
+Module == "c4"
+Svc == {"s1", "s2", "S3"}
 Ev  == {"e1", "e2"}
 Ent == {"a", "b", "c"}
 EntOf(n) == IF n \in {"a", "a.old", "a.x"} THEN "a" ELSE IF n \in {"b", "b.old"} THEN "b" ELSE "c"
 Ents(d) == { EntOf(n) : n \in d.st }
 NoOwner == "-"
 AllFlags == {"legacy-stop-before-first-run-leaks", "service-handler-not-repointed", "notify-del-returns-early", "dm-delayed-start-ignores-drop",
-             "dm-start-order-arbitrary", "dm-service-owner-is-evaluator-name", "dm-service-multi-arg-rejected"}
+             "dm-start-order-arbitrary", "dm-service-owner-is-evaluator-name", "dm-service-multi-arg-rejected",
+             "session-import-module-not-started", "service-bookkeeping-keyed-by-spelling"}
 
-Dc(st, ev, tt, svc, resp, sf) == [st |-> st, ev |-> ev, tt |-> tt, svc |-> svc, resp |-> resp, sf |-> sf]
+Dc(st, ev, tt, svc, resp, sf) == [st |-> st, ev |-> ev, tt |-> tt, svc |-> svc, resp |-> resp, sf |-> sf, alt |-> FALSE]
 \* the declarations; a configuration selects some by index (constant DeclSet)
 DeclList == <<
   Dc({}, {}, {}, {"s1"}, "none", "stack"),                                        \*  1 service
@@ -80,10 +100,16 @@ DeclList == <<
   Dc({"c"}, {"e1", "e2"}, {"shutdown", "timer"}, {}, "none", "stack"),            \* 13
   Dc({}, {}, {"startup", "shutdown"}, {"s1", "s2"}, "optional", "args"),          \* 14
   Dc({}, {}, {}, {"s2"}, "only", "stack"),                                        \* 15
-  Dc({"b", "c"}, {"e2"}, {"startup"}, {}, "none", "stack") >>                     \* 16
+  Dc({"b", "c"}, {"e2"}, {"startup"}, {}, "none", "stack"),                       \* 16
+  Dc({}, {}, {}, {"S3"}, "none", "stack"),                                        \* 17 a name with an upper-case letter
+  Dc({}, {"e2"}, {}, {"s1", "S3"}, "optional", "stack"),                          \* 18
+  Dc({"a"}, {"e1"}, {"startup"}, {"s2", "S3"}, "none", "args"),                   \* 19
+  [Dc({}, {}, {}, {"s1"}, "none", "stack") EXCEPT !.alt = TRUE],                  \* 20 "pyscript.S1": the same name as in 1
+  [Dc({}, {"e1"}, {}, {"s2", "S3"}, "optional", "stack") EXCEPT !.alt = TRUE] >>  \* 21 "pyscript.S2", "pyscript.s3"
 AllDecls == 1..Len(DeclList)
-\* declarations outside the loci of the known deviations (one name per entity, one @service per alias)
-MaskedDecls == { i \in AllDecls : DeclList[i].sf = "stack" /\ Cardinality(Ents(DeclList[i])) = Cardinality(DeclList[i].st) }
+\* declarations outside the loci of the known deviations (one name per entity; several names as arguments of one
+\* @service are no longer masked: repaired in the code)
+MaskedDecls == { i \in AllDecls : Cardinality(Ents(DeclList[i])) = Cardinality(DeclList[i].st) /\ ~DeclList[i].alt }
 Decls == { DeclList[i] : i \in DeclSet }
 Data == {"-", "p=1", "p=2,q=x"}
 \* Outgoing service calls from scripts (service.call(domain, name, **kw) and domain.name(**kw)).  A keyword is
@@ -124,9 +150,10 @@ OutExpect(give) ==
 OutForms == {"name", "call"}
 
 VARIABLES flags, sub, started, unloaded, loaded, G, bind, cont, cnt, own, hd, subs, lst, tm,
-          runs, res, steps, lastAct, quiet, hot
+          runs, res, steps, lastAct, quiet, hot,
+          imp          \* file / app contexts whose present incarnation has imported the module
 vars == <<flags, sub, started, unloaded, loaded, G, bind, cont, cnt, own, hd, subs, lst, tm,
-          runs, res, steps, lastAct, quiet, hot>>
+          runs, res, steps, lastAct, quiet, hot, imp>>
 \* G[g] = [c, d, via, s, su, sd]: context, declaration, how created ("exec" | "run" | "file"), status, startup/
 \*   shutdown run counters.  status: "delayed" (context not started yet) | "zdelayed" (delayed, lost its last
 \*   reference, will be started anyway: deviation) | "live" | "zombie" (live without reference: deviation) |
@@ -152,7 +179,8 @@ IsActive(st) == st \in {"live", "zombie", "pending"}
 RefIn(g, b, k) == \E c \in Ctx : (\E n \in Name : b[c][n] = g) \/ g \in Range(k[c].L) \/ k[c].D = g
 Referenced(g) == RefIn(g, bind, cont)
 
-Init == /\ flags \in FlagSets /\ sub \in SubSet /\ started \in StartedSet /\ unloaded = FALSE /\ loaded = Ctx
+Init == /\ flags \in FlagSets /\ sub \in SubSet /\ started \in StartedSet /\ unloaded = FALSE /\ loaded = Ctx \ {Module}
+        /\ imp = {}
         /\ G = <<>> /\ bind = [c \in Ctx |-> [n \in Name |-> 0]] /\ cont = [c \in Ctx |-> EmptyCont]
         /\ cnt = [s \in Svc |-> 0] /\ own = [s \in Svc |-> NoOwner] /\ hd = [s \in Svc |-> 0]
         /\ subs = [x \in Ent |-> {}] /\ lst = [e \in Ev |-> {}] /\ tm = {}
@@ -215,22 +243,29 @@ Deactivate(w, g, leak, keep) ==
 
 RECURSIVE FoldAct(_, _, _), FoldDeact(_, _, _, _)
 FoldAct(w, q, zs) == IF q = <<>> THEN w ELSE FoldAct(Activate(w, Head(q), Head(q) \in zs), Tail(q), zs)
-FoldDeact(w, q, lk, hk) == IF q = <<>> THEN w ELSE FoldDeact(Deactivate(w, Head(q), lk[Head(q)], Head(q) \in hk), Tail(q), lk, hk)
+\* (a new generation that is unreferenced when the step completes ends with it, provided it was activated at all)
+FoldDeact(w, q, lk, hk) == IF q = <<>> THEN w
+                           ELSE FoldDeact(IF w.G[Head(q)].s \in {"live", "zombie"} THEN Deactivate(w, Head(q), lk[Head(q)], Head(q) \in hk) ELSE w,
+                                          Tail(q), lk, hk)
 
 \* entities that may keep a dead queue when the deviation is present: the iteration over the name set stops at
 \* the first name whose entity was already handled, i.e. behind a prefix of names with distinct entities
 PossibleLeaks(d) == LET E == Ents(d)
                         multi == { e \in E : Cardinality({ n \in d.st : EntOf(n) = e }) >= 2 }
                     IN { lk \in SUBSET E : lk = {} \/ multi \ lk # {} }
-RECURSIVE LeakFns(_)
-LeakFns(S) == IF S = {} THEN { [g \in {} |-> {}] }
-              ELSE LET g == CHOOSE x \in S : TRUE
-                       ch == IF "notify-del-returns-early" \in flags THEN PossibleLeaks(G[g].d) ELSE {{}}
-                   IN { (g :> l) @@ f : l \in ch, f \in LeakFns(S \ {g}) }
+RECURSIVE LeakFnsX(_, _)
+LeakFnsX(GG, S) == IF S = {} THEN { [g \in {} |-> {}] }
+                   ELSE LET g == CHOOSE x \in S : TRUE
+                            ch == IF "notify-del-returns-early" \in flags THEN PossibleLeaks(GG[g].d) ELSE {{}}
+                        IN { (g :> l) @@ f : l \in ch, f \in LeakFnsX(GG, S \ {g}) }
+LeakFns(S) == LeakFnsX(G, S)
 
-\* generations that end with this step: live ones without reference, and whatever a stopped context still runs
-DeadOf(b1, k1, stopC) == { g \in Gen : \/ G[g].s = "live" /\ ~RefIn(g, b1, k1)
-                                       \/ G[g].s = "zombie" /\ G[g].c \in stopC }
+\* generations that end with this step: live ones without reference, and whatever a stopped context still runs;
+\* also a NEW generation that is activated at once ("new") and not referenced when the step completes (the
+\* definitions of a module whose top level fails after them, imported by a started context)
+DeadOfX(GG, b1, k1, stopC) == { g \in 1..Len(GG) : \/ GG[g].s \in {"live", "new"} /\ ~RefIn(g, b1, k1)
+                                                   \/ GG[g].s = "zombie" /\ GG[g].c \in stopC }
+DeadOf(b1, k1, stopC) == DeadOfX(G, b1, k1, stopC)
 
 \* The common transition: new bindings b1 / containers k1, new generations newG (appended), contexts stopped
 \* (stopC) and contexts started at the end (startC); lk = leak choice per ending generation.
@@ -242,7 +277,7 @@ Trans(b1, k1, newG, stopC, startC, lk, hk) ==
       new == (n0 + 1)..Len(G1)
       now == { g \in new : G1[g].s = "new" }                                   \* activated immediately
       w1  == FoldAct([Cur EXCEPT !.G = G1], SortedSeq(now), {})
-      w2  == FoldDeact(w1, SortedSeq(DeadOf(b1, k1, stopC)), lk, hk)
+      w2  == FoldDeact(w1, SortedSeq(DeadOfX(G1, b1, k1, stopC)), lk, hk)
       zflag == "dm-delayed-start-ignores-drop" \in flags /\ sub = "dm"
       \* delayed / inert generations that lost their reference
       G3  == [g \in 1..Len(G1) |->
@@ -267,7 +302,7 @@ HdChoices(w, delayedStart) ==
       ch(s) == { w.hd[s] }
                \cup (IF order /\ Cardinality(StartedNow(w, s)) >= 2 THEN StartedNow(w, s) ELSE {})
                \cup (IF late /\ w.cnt[s] > 0 THEN { h \in hot : s \in G[h].d.svc } ELSE {})
-  IN IF order \/ late THEN { ("s1" :> a) @@ ("s2" :> b) : a \in ch("s1"), b \in ch("s2") } ELSE { w.hd }
+  IN IF order \/ late THEN { f \in [Svc -> 0..Len(w.G)] : \A s \in Svc : f[s] \in ch(s) } ELSE { w.hd }
 
 StepC(a) == /\ steps < MaxSteps /\ steps' = steps + 1 /\ lastAct' = a /\ UNCHANGED <<flags, sub>>
             /\ quiet' \in (IF Rush THEN BOOLEAN ELSE {TRUE})
@@ -276,7 +311,7 @@ Quiescent == \A g \in Gen : G[g].s # "pending"
 \* generations that may keep everything they subscribed: stopped while their start was still in progress
 KeepChoices(dead) == IF "legacy-stop-before-first-run-leaks" \in flags /\ sub = "legacy" THEN SUBSET (dead \cap hot) ELSE {{}}
 Apply(b1, k1, newG, stopC, startC, delayedStart) ==
-  \E lk \in LeakFns(DeadOf(b1, k1, stopC)), hk \in KeepChoices(DeadOf(b1, k1, stopC)) :
+  \E lk \in LeakFnsX(G \o newG, DeadOfX(G \o newG, b1, k1, stopC)), hk \in KeepChoices(DeadOf(b1, k1, stopC)) :
     LET w == Trans(b1, k1, newG, stopC, startC, lk, hk) IN
     \E h \in HdChoices(w, delayedStart) :
       /\ hot' = IF quiet' THEN {} ELSE { g \in 1..Len(w.G) : w.G[g].s = "live" /\ (g > Len(G) \/ G[g].s # "live") }
@@ -294,6 +329,14 @@ ExecGen(c, d, via) == IF CellDelays(c) /\ via = "exec" THEN [NewGen(c, d, via) E
 ExecStart(c, via) == IF CellDelays(c) /\ via = "exec" THEN {c} ELSE {}
 \* cross-context conflicts are generated only for declarations with ONE service (what happens to the other
 \* decorators of a refused function is not specified and differs between the subsystems)
+\* a declaration that spells a name differently from a declaration of that name which holds registrations now
+\* (exc: contexts whose generations end before the new declaration is evaluated - the context being reloaded)
+SpellingCollisionX(d, exc) == \E h \in Gen : /\ HoldsTables(G[h].s) /\ G[h].c \notin exc
+                                              /\ G[h].d.svc \cap d.svc # {} /\ G[h].d.alt # d.alt
+SpellingCollision(d) == SpellingCollisionX(d, {})
+SpellingCollisionIn(defs, exc) ==
+  \/ \E i \in 1..Len(defs) : SpellingCollisionX(defs[i].d, exc)
+  \/ \E i, j \in 1..Len(defs) : defs[i].d.svc \cap defs[j].d.svc # {} /\ defs[i].d.alt # defs[j].d.alt
 OwnedElsewhere(c, s) == own[s] \notin {NoOwner, c, c \o "!run"}
 ConflictOK(c, d) == (\E s \in d.svc : OwnedElsewhere(c, s)) => Cardinality(d.svc) = 1
 ExecOK(c) == started /\ c \in loaded
@@ -303,18 +346,18 @@ Define(c, n, d) ==        \* def / redefinition of global name n (top level stat
   /\ "define" \in Acts /\ ExecOK(c) /\ Len(G) < MaxGen /\ ConflictOK(c, d)
   /\ Step([a |-> "define", c |-> c, n |-> n, d |-> d, g |-> Len(G) + 1])
   /\ Apply([bind EXCEPT ![c][n] = Len(G) + 1], cont, <<ExecGen(c, d, "exec")>>, {}, ExecStart(c, "exec"), FALSE)
-  /\ UNCHANGED <<started, unloaded, loaded>>
+  /\ UNCHANGED <<started, unloaded, loaded, imp>>
 
 Del(c, n) ==
   /\ "del" \in Acts /\ ExecOK(c) /\ bind[c][n] # 0 /\ Step([a |-> "del", c |-> c, n |-> n])
   /\ Apply([bind EXCEPT ![c][n] = 0], cont, <<>>, {}, {}, FALSE)
-  /\ UNCHANGED <<started, unloaded, loaded>>
+  /\ UNCHANGED <<started, unloaded, loaded, imp>>
 
 Rebind(c, n, m) ==        \* n = m : a second reference, or overwriting the last reference of n's old value
   /\ "rebind" \in Acts /\ ExecOK(c) /\ n # m /\ bind[c][m] # 0 /\ bind[c][n] # bind[c][m]
   /\ Step([a |-> "rebind", c |-> c, n |-> n, m |-> m])
   /\ Apply([bind EXCEPT ![c][n] = bind[c][m]], cont, <<>>, {}, {}, FALSE)
-  /\ UNCHANGED <<started, unloaded, loaded>>
+  /\ UNCHANGED <<started, unloaded, loaded, imp>>
 
 \* closure created by a factory and stored in the list L / the dict slot D["k"]; via = "run": the factory is
 \* called inside a running (triggered) function instead of a top level statement
@@ -325,18 +368,18 @@ Push(c, d, where, via) ==
   /\ Step([a |-> "push", c |-> c, d |-> d, where |-> where, via |-> via, g |-> Len(G) + 1])
   /\ Apply(bind, IF where = "L" THEN [cont EXCEPT ![c].L = Append(@, Len(G) + 1)] ELSE [cont EXCEPT ![c].D = Len(G) + 1],
            <<ExecGen(c, d, via)>>, {}, ExecStart(c, via), FALSE)
-  /\ UNCHANGED <<started, unloaded, loaded>>
+  /\ UNCHANGED <<started, unloaded, loaded, imp>>
 
 Pop(c) ==
   /\ "pop" \in Acts /\ ExecOK(c) /\ cont[c].L # <<>> /\ Step([a |-> "pop", c |-> c])
   /\ Apply(bind, [cont EXCEPT ![c].L = SubSeq(@, 1, Len(@) - 1)], <<>>, {}, {}, FALSE)
-  /\ UNCHANGED <<started, unloaded, loaded>>
+  /\ UNCHANGED <<started, unloaded, loaded, imp>>
 
 Clear(c, where) ==
   /\ "clear" \in Acts /\ ExecOK(c) /\ (IF where = "L" THEN cont[c].L # <<>> ELSE cont[c].D # 0)
   /\ Step([a |-> "clear", c |-> c, where |-> where])
   /\ Apply(bind, IF where = "L" THEN [cont EXCEPT ![c].L = <<>>] ELSE [cont EXCEPT ![c].D = 0], <<>>, {}, {}, FALSE)
-  /\ UNCHANGED <<started, unloaded, loaded>>
+  /\ UNCHANGED <<started, unloaded, loaded, imp>>
 
 \* (re)write the file of context c with the given definitions and reload: everything of the old context ends,
 \* the definitions are evaluated in order while the context is not started, then the context is started
@@ -344,51 +387,106 @@ ContentOK(c, defs) ==
   /\ \A i \in 1..Len(defs) : ConflictOK(c, defs[i].d)
   \* a definition overwritten during the load never starts; whether its shutdown trigger runs is not specified
   /\ \A i \in 1..Len(defs) : (\E j \in (i + 1)..Len(defs) : defs[j].n = defs[i].n) => "shutdown" \notin defs[i].d.tt
-Reload(c, defs) ==
-  /\ "reload" \in Acts /\ started /\ c # Session /\ Len(G) + Len(defs) <= MaxGen /\ ContentOK(c, defs)
-  /\ Step([a |-> "reload", c |-> c, defs |-> defs, g |-> Len(G) + 1])
-  /\ LET last(n) == { i \in 1..Len(defs) : defs[i].n = n }
-         b1 == [bind EXCEPT ![c] = [n \in Name |-> IF last(n) = {} THEN 0 ELSE Len(G) + MaxOf(last(n))]]
-         newG == [i \in 1..Len(defs) |-> [NewGen(c, defs[i].d, "file") EXCEPT !.s = "delayed"]]
-     IN Apply(b1, [cont EXCEPT ![c] = EmptyCont], newG, {c}, {c}, TRUE)
-  /\ loaded' = loaded \cup {c}
+SvcOf(defs) == UNION { defs[i].d.svc : i \in 1..Len(defs) }
+\* global names bound by a content: the last definition of each name; generations numbered off + 1 ...
+BindOf(defs, off) == [n \in Name |-> LET last == { i \in 1..Len(defs) : defs[i].n = n } IN
+                                     IF last = {} THEN 0 ELSE off + MaxOf(last)]
+NoBind == [n \in Name |-> 0]
+\* A content that FAILS: its top level raises after the listed definitions were evaluated (what would follow is
+\* never evaluated).  The context is then not loaded and none of the definitions is ever active.  (The legacy
+\* subsystem runs the shutdown trigger of a function that never started: not specified, not generated.)
+FailOK(defs, fail) == fail => ("fail" \in Acts /\ \A i \in 1..Len(defs) : "shutdown" \notin defs[i].d.tt)
+\* the module's content when it is loaded by an import executed in a STARTED context: every definition is
+\* activated as it is evaluated (no definition of a name twice: the first would live for a moment)
+DistinctNames(defs) == \A i, j \in 1..Len(defs) : i # j => defs[i].n # defs[j].n
+\* im: the file begins with "import mx"; mdefs = the module's content if that import loads it (else <<>>).  The
+\* module is loaded while its importer is, i.e. delayed, and started with it; it stays loaded when the importer's
+\* own top level fails later.  Module and importer declaring one service in one load: not generated (as in Boot).
+Reload(c, defs, fail, im, mdefs) ==
+  /\ "reload" \in Acts /\ started /\ c \notin {Session, Module}
+  /\ Len(G) + Len(defs) + Len(mdefs) <= MaxGen /\ ContentOK(c, defs) /\ FailOK(defs, fail)
+  /\ IF im THEN /\ "import" \in Acts /\ Module \in Ctx
+                /\ IF Module \in loaded THEN mdefs = <<>>
+                   ELSE ContentOK(Module, mdefs) /\ SvcOf(mdefs) \cap SvcOf(defs) = {}
+     ELSE mdefs = <<>>
+  /\ Step([a |-> "reload", c |-> c, defs |-> defs, fail |-> fail, im |-> im, mdefs |-> mdefs, g |-> Len(G) + 1,
+           fresh |-> im /\ Module \notin loaded])      \* fresh: the module's file is (re)written for this step
+  /\ LET nm == Len(mdefs)
+         modNew == im /\ Module \notin loaded
+         b0 == [bind EXCEPT ![c] = IF fail THEN NoBind ELSE BindOf(defs, Len(G) + nm)]
+         b1 == IF modNew THEN [b0 EXCEPT ![Module] = BindOf(mdefs, Len(G))] ELSE b0
+         newG == [i \in 1..(nm + Len(defs)) |->
+                    IF i <= nm THEN [NewGen(Module, mdefs[i].d, "file") EXCEPT !.s = "delayed"]
+                    ELSE [NewGen(c, defs[i - nm].d, "file") EXCEPT !.s = IF fail THEN "dropped" ELSE "delayed"]]
+     IN /\ Apply(b1, [cont EXCEPT ![c] = EmptyCont], newG, {c}, {c} \cup (IF modNew THEN {Module} ELSE {}), TRUE)
+        /\ loaded' = (IF fail THEN loaded \ {c} ELSE loaded \cup {c}) \cup (IF modNew THEN {Module} ELSE {})
+        /\ imp' = IF im /\ ~fail THEN imp \cup {c} ELSE imp \ {c}
+  /\ UNCHANGED <<started, unloaded>>
+
+\* "import mx" executed in the started context c: by a top-level statement / Jupyter cell (via = "exec") or inside
+\* a running function (via = "run").  If the module is not loaded yet its file (content mdefs, written just
+\* before) is loaded now and - the importer being started - its functions are active at once; fail: the module's
+\* top level raises after mdefs: the definitions were active (a startup trigger has run) until then, the failure
+\* ends them, the module is not loaded.  If it is loaded already nothing changes.
+SessionImportDelays(c, via) == "session-import-module-not-started" \in flags /\ c = Session /\ via = "exec"
+Import(c, mdefs, via, fail) ==
+  /\ "import" \in Acts /\ Module \in Ctx /\ c # Module /\ ExecOK(c)
+  /\ IF Module \in loaded THEN mdefs = <<>> /\ ~fail
+     ELSE /\ Len(G) + Len(mdefs) <= MaxGen /\ ContentOK(Module, mdefs) /\ DistinctNames(mdefs) /\ FailOK(mdefs, fail)
+          \* (whether a module that fails while a session CELL imports it was started at all: not specified)
+          /\ fail => ~(c = Session /\ via = "exec")
+  /\ Step([a |-> "import", c |-> c, mdefs |-> mdefs, via |-> via, fail |-> fail, g |-> Len(G) + 1,
+           fresh |-> Module \notin loaded])
+  /\ IF Module \in loaded
+     THEN Apply(bind, cont, <<>>, {}, {}, FALSE) /\ loaded' = loaded
+     ELSE LET st == IF SessionImportDelays(c, via) THEN "delayed" ELSE "new"
+              newG == [i \in 1..Len(mdefs) |-> [NewGen(Module, mdefs[i].d, "file") EXCEPT !.s = st]]
+              b1 == IF fail THEN bind ELSE [bind EXCEPT ![Module] = BindOf(mdefs, Len(G))]
+          IN /\ Apply(b1, cont, newG, {}, {}, FALSE)
+             /\ loaded' = IF fail THEN loaded ELSE loaded \cup {Module}
+  /\ imp' = IF fail THEN imp ELSE imp \cup {c}
   /\ UNCHANGED <<started, unloaded>>
 
 \* remove the file and reload / close the Jupyter session
+\* (removing the module's file also reloads every file / app that has imported it: generated only when no loaded
+\* file / app holds an import of it - its importers were sessions, or were reloaded / removed since)
 Close(c) ==
   /\ "close" \in Acts /\ started /\ c \in loaded /\ Step([a |-> "close", c |-> c])
+  /\ c = Module => imp \cap {"c1", "c2"} = {}
   /\ Apply([bind EXCEPT ![c] = [n \in Name |-> 0]], [cont EXCEPT ![c] = EmptyCont], <<>>, {c}, {}, FALSE)
   /\ loaded' = loaded \ {c}
+  /\ imp' = imp \ {c}
   /\ UNCHANGED <<started, unloaded>>
 
 Unload ==                 \* unload the integration
   /\ "unload" \in Acts /\ started /\ Step([a |-> "unload"])
   /\ Apply([c \in Ctx |-> [n \in Name |-> 0]], [c \in Ctx |-> EmptyCont], <<>>, Ctx, {}, FALSE)
-  /\ loaded' = {} /\ unloaded' = TRUE
+  /\ loaded' = {} /\ unloaded' = TRUE /\ imp' = {}
   /\ UNCHANGED started
 
 \* The integration is set up while HA is starting, with the given file contents (d1 for c1, d2 for c2): the
 \* definitions are evaluated but nothing starts until EVENT_HOMEASSISTANT_STARTED; then every file / app context is
 \* started.  (A reload before that event starts all contexts as well, so this is the only delayed phase.)
 \* Who wins a cross-context service conflict during this phase is not specified: not generated.
-SvcOf(defs) == UNION { defs[i].d.svc : i \in 1..Len(defs) }
-Boot(d1, d2) ==
+\* f1 / f2: the file of c1 / c2 fails (see FailOK): that context is not loaded.
+Boot(d1, d2, f1, f2) ==
   /\ "boot" \in Acts /\ ~started /\ Len(d1) + Len(d2) <= MaxGen
   /\ ContentOK("c1", d1) /\ ContentOK("c2", d2) /\ SvcOf(d1) \cap SvcOf(d2) = {}
-  /\ ("c1" \notin Ctx => d1 = <<>>) /\ ("c2" \notin Ctx => d2 = <<>>)
-  /\ Step([a |-> "boot", d1 |-> d1, d2 |-> d2, g |-> 1])
+  /\ FailOK(d1, f1) /\ FailOK(d2, f2)
+  /\ ("c1" \notin Ctx => d1 = <<>> /\ ~f1) /\ ("c2" \notin Ctx => d2 = <<>> /\ ~f2)
+  /\ Step([a |-> "boot", d1 |-> d1, d2 |-> d2, f1 |-> f1, f2 |-> f2, g |-> 1])
   /\ started' = TRUE
-  /\ LET last(defs, n) == { i \in 1..Len(defs) : defs[i].n = n }
-         bnd(defs, off) == [n \in Name |-> IF last(defs, n) = {} THEN 0 ELSE off + MaxOf(last(defs, n))]
-         b1 == [c \in Ctx |-> IF c = "c1" THEN bnd(d1, 0) ELSE IF c = "c2" THEN bnd(d2, Len(d1)) ELSE bind[c]]
+  /\ LET b1 == [c \in Ctx |-> IF c = "c1" THEN (IF f1 THEN NoBind ELSE BindOf(d1, 0))
+                              ELSE IF c = "c2" THEN (IF f2 THEN NoBind ELSE BindOf(d2, Len(d1))) ELSE bind[c]]
          newG == [i \in 1..(Len(d1) + Len(d2)) |->
-                    IF i <= Len(d1) THEN [NewGen("c1", d1[i].d, "file") EXCEPT !.s = "delayed"]
-                    ELSE [NewGen("c2", d2[i - Len(d1)].d, "file") EXCEPT !.s = "delayed"]]
+                    IF i <= Len(d1) THEN [NewGen("c1", d1[i].d, "file") EXCEPT !.s = IF f1 THEN "dropped" ELSE "delayed"]
+                    ELSE [NewGen("c2", d2[i - Len(d1)].d, "file") EXCEPT !.s = IF f2 THEN "dropped" ELSE "delayed"]]
      IN Apply(b1, cont, newG, {}, Ctx \ {Session}, TRUE)
-  /\ UNCHANGED <<unloaded, loaded>>
+  /\ loaded' = loaded \ ((IF f1 THEN {"c1"} ELSE {}) \cup (IF f2 THEN {"c2"} ELSE {}))
+  /\ UNCHANGED <<unloaded, imp>>
 
 Occur(a, rs, r) == /\ ~unloaded /\ quiet /\ lastAct' = a /\ runs' = rs /\ res' = r
-                   /\ UNCHANGED <<quiet, hot, flags, sub, steps, started, unloaded, loaded, G, bind, cont, cnt, own, hd, subs, lst, tm>>
+                   /\ UNCHANGED <<quiet, hot, flags, sub, steps, started, unloaded, loaded, imp, G, bind, cont, cnt, own, hd, subs, lst, tm>>
 Fire(e) == /\ "fire" \in Acts /\ started
            /\ Occur([a |-> "fire", e |-> e], { Run(g, "event", e, "p=1") : g \in { h \in lst[e] : IsActive(G[h].s) } }, NoRes)
 SetState(x) == /\ "set" \in Acts /\ started
@@ -417,7 +515,7 @@ Complete(g, name) ==
        /\ G' = w.G /\ cnt' = w.cnt /\ own' = w.own /\ hd' = w.hd /\ subs' = w.subs /\ lst' = w.lst /\ tm' = w.tm
        /\ runs' = w.runs /\ res' = NoRes
   /\ hot' = IF quiet' THEN {} ELSE hot
-  /\ UNCHANGED <<started, unloaded, loaded, bind, cont>>
+  /\ UNCHANGED <<started, unloaded, loaded, imp, bind, cont>>
 StopDeferred(g) == sub = "dm" /\ Complete(g, "stopdeferred")
 ReaperCancel(g) == sub = "legacy" /\ Complete(g, "reapercancel")
 
@@ -428,6 +526,12 @@ Contents == { <<>> } \cup (IF MaxDefs >= 1 THEN { <<[n |-> n, d |-> d]>> : n \in
             \cup (IF MaxDefs >= 2 THEN { <<[n |-> n1, d |-> d1], [n |-> n2, d |-> d2]>> :
                                           n1 \in Name, n2 \in Name, d1 \in PairDecls, d2 \in PairDecls } ELSE {})
 
+\* (in a configuration whose declarations never use the third name, calling it is calling an unregistered name
+\* once more)
+CallSvc == IF "S3" \in UNION { d.svc : d \in Decls } THEN Svc ELSE Svc \ {"S3"}
+FailSet == IF "fail" \in Acts THEN BOOLEAN ELSE {FALSE}
+ImSet == IF "import" \in Acts /\ Module \in Ctx THEN BOOLEAN ELSE {FALSE}
+ModContents == { c \in Contents : DistinctNames(c) }
 \* with many declarations the pairs of two-definition contents are too many to enumerate at boot
 BootContents == IF Cardinality(Decls) > 4 THEN { c \in Contents : Len(c) <= 1 } ELSE Contents
 \* One disjunct per kind of action, parameters quantified behind a guard: TLC's simulator picks a disjunct
@@ -439,16 +543,20 @@ Next == \/ (started /\ \E c \in Ctx, n \in Name, d \in Decls : Define(c, n, d))
         \/ (started /\ \E c \in Ctx : Pop(c))
         \/ (started /\ \E c \in Ctx : Close(c))
         \/ (started /\ \E c \in Ctx, wh \in {"L", "D"} : Clear(c, wh))
-        \/ (started /\ \E c \in Ctx, defs \in Contents : Reload(c, defs))
+        \/ (started /\ \E c \in Ctx, defs \in Contents, fail \in FailSet, im \in ImSet :
+                         \E mdefs \in (IF im /\ Module \notin loaded THEN ModContents ELSE {<<>>}) : Reload(c, defs, fail, im, mdefs))
+        \/ (started /\ "import" \in Acts /\ \E c \in Ctx, via \in Vias :
+                         \E mdefs \in (IF Module \in loaded THEN {<<>>} ELSE ModContents), fail \in (IF Module \in loaded THEN {FALSE} ELSE FailSet) :
+                            Import(c, mdefs, via, fail))
         \/ Unload
-        \/ (~started /\ \E d1 \in BootContents, d2 \in BootContents : Boot(d1, d2))
+        \/ (~started /\ \E d1 \in BootContents, d2 \in BootContents, f1 \in FailSet, f2 \in FailSet : Boot(d1, d2, f1, f2))
         \/ (started /\ \E e \in Ev : Fire(e))
         \/ (started /\ \E x \in Ent : SetState(x))
-        \/ (started /\ \E s \in Svc, data \in Data, rr \in BOOLEAN : Call(s, data, rr))
+        \/ (started /\ \E s \in CallSvc, data \in Data, rr \in BOOLEAN : Call(s, data, rr))
         \/ (started /\ \E c \in Ctx, f \in OutForms, give \in OutGives : Out(c, f, give))
         \/ (started /\ \E g \in Gen : StopDeferred(g) \/ ReaperCancel(g))
 Spec == Init /\ [][Next]_vars
-View == <<flags, sub, started, unloaded, loaded, G, bind, cont, cnt, own, hd, subs, lst, tm, steps, quiet, hot>>
+View == <<flags, sub, started, unloaded, loaded, imp, G, bind, cont, cnt, own, hd, subs, lst, tm, steps, quiet, hot>>
 
 \* ------------------------------------------------------------------ projection compared with the code
 Min(a, b) == IF a < b THEN a ELSE b
@@ -464,8 +572,8 @@ Proj == [ runs |-> runs, res |-> res,
           evq  |-> [e \in Ev |-> Cardinality(lst[e])],
           evl  |-> [e \in Ev |-> IF sub = "legacy" THEN Min(1, Cardinality(lst[e])) ELSE Cardinality(lst[e])],
           tm   |-> Cardinality(tm),
-          act  |-> [c \in {"c1", "c2", "c3"} |-> Cardinality({ g \in Gen : G[g].c = c /\ G[g].s \in {"live", "zombie"} })],
-          ctx  |-> [c \in {"c1", "c2", "c3"} |-> c \in loaded],
+          act  |-> [c \in {"c1", "c2", "c3", "c4"} |-> Cardinality({ g \in Gen : G[g].c = c /\ G[g].s \in {"live", "zombie"} })],
+          ctx  |-> [c \in {"c1", "c2", "c3", "c4"} |-> c \in loaded],
           oth  |-> 0,
           base |-> IF ~unloaded THEN "-" ELSE IF Clean THEN "clean"
                    ELSE IF \E e \in Ev : lst[e] # {} THEN "listeners" ELSE "tables" ]
@@ -522,10 +630,23 @@ OutgoingCallDeliversGivenKeywords ==
         => res' = [k |-> "out", g |-> 0, data |-> "-", o |-> OutExpect(lastAct'.give)]]_vars
 \* generator mask for "service-handler-not-repointed": at most one live declaration per service
 MaskOneDeclaration == \A s \in Svc : cnt[s] <= 1
+\* generator mask for "session-import-module-not-started": no cell of the session loads the module
+MaskNoSessionImport == IF lastAct.a = "import" THEN ~(lastAct.c = Session /\ lastAct.via = "exec" /\ lastAct.fresh) ELSE TRUE
+Masked == MaskOneDeclaration /\ MaskNoSessionImport
 \* witnesses (must be violated: the interesting situations are reachable)
 W_NoTwoDeclarers == ~\E s \in Svc : cnt[s] >= 2
 W_NoRefusal == ~\E g \in Gen : G[g].s = "inert"
 W_NoUnloadAfterActivity == ~(unloaded /\ \E g \in Gen : G[g].s = "dead")
 W_NoShutdownRun == ~\E g \in Gen : G[g].sd > 0
 W_NoClosureHeld == ~\E c \in Ctx : cont[c].L # <<>> /\ cont[c].D # 0
+\* the parts added in round 3 are reachable (one witness per driver: every TLC run costs a JVM start).
+\* a module's function made active by an import executed inside a running function, which outlives the reload of
+\* its importer
+ModuleOutlivesImporter == imp = {} /\ \E g, h \in Gen : g < h /\ G[g].c = Module /\ G[g].s = "live" /\ G[g].su = 1 /\ G[h].c # Module
+\* a load that failed after a definition with a service, and a context left unloaded by it
+FailedLoad == \E c \in Ctx : c \notin loaded /\ ~unloaded /\ \E g \in Gen : G[g].c = c /\ G[g].s = "dropped" /\ G[g].d.svc # {}
+\* a service whose spelling has an upper-case letter: redefined (the old declaration ended, a new one lives)
+MixedCaseRedeclared == \E g, h \in Gen : g < h /\ "S3" \in G[g].d.svc \cap G[h].d.svc /\ G[g].s = "dead" /\ G[h].s = "live"
+W_NoModuleOutlivesImporterNorFailedLoad == ~(ModuleOutlivesImporter /\ FailedLoad)
+W_NoMixedCaseRedeclaredNorFailedLoad == ~(MixedCaseRedeclared /\ FailedLoad)
 =============================================================================
